@@ -460,6 +460,20 @@ func retResults(ret *ssa.Return) []ssa.Value {
 		if !ok {
 			continue
 		}
+		// a result slot is only stored whole and loaded; a variable whose fields or
+		// elements are written separately (entry.hasExpRef = true) is read as it is
+		partial := false
+		if al.Referrers() != nil {
+			for _, rf := range *al.Referrers() {
+				switch rf.(type) {
+				case *ssa.FieldAddr, *ssa.IndexAddr:
+					partial = true
+				}
+			}
+		}
+		if partial {
+			continue
+		}
 		var last ssa.Value
 		for _, in := range ret.Block().Instrs {
 			if in == ld {
